@@ -39,6 +39,16 @@ def main(argv):
         return 2
     if argv[0] == "--setup":
         return setup()
+    if argv[0] == "--coqchk":
+        # independent re-check of every compiled property file and everything it depends on;
+        # prints the axioms they rely on (takes a few minutes)
+        import glob
+        mods = sorted("Vy.Properties." + os.path.basename(f)[:-2] for f in glob.glob(os.path.join(V.COQ, "Properties", "*.v")))
+        rc, out = V.sh(["coqchk", "-silent", "-o", "-Q", ".", "Vy"] + mods, cwd=V.COQ, timeout=3600)
+        with open(os.path.join(V.EVIDENCE, "coqchk.txt"), "w") as f:
+            f.write("$ cd coq && coqchk -silent -o -Q . Vy " + " ".join(mods) + "\n" + out)
+        print(out[-1200:])
+        return rc
     if argv[0] == "--build":
         # development helper: regenerate + make the given targets under the build lock
         with V._Lock("coq.lock"):
